@@ -2,5 +2,5 @@
 Require Import ExtrOcamlBasic.
 Require Import SquidV.Bytes SquidV.ClenModel SquidV.HdrparseModel SquidV.gen.HdrTable_gen.
 Extraction "m_hdrparse.ml"
-  relaxed_of h_parse h_pack h_entry_parse h_block_fields ref_fields hdr_table
+  relaxed_of h_parse h_pack h_entry_parse h_block_fields hdr_table
   he_id he_name he_value hr_entries hr_conflicting hr_teUnsupported.
